@@ -117,12 +117,23 @@ type vfPkt struct {
 
 // ---- encoder ---------------------------------------------------------------
 
-type vfW struct{ b []byte }
+type vfW struct {
+	b    []byte
+	lens []int // offsets (within b) of every uint32 length / count field
+}
 
 func (w *vfW) u8(v byte)    { w.b = append(w.b, v) }
 func (w *vfW) u32(v uint32) { w.b = binary.BigEndian.AppendUint32(w.b, v) }
 func (w *vfW) u64(v uint64) { w.b = binary.BigEndian.AppendUint64(w.b, v) }
-func (w *vfW) str(s []byte) { w.u32(uint32(len(s))); w.b = append(w.b, s...) }
+func (w *vfW) str(s []byte) {
+	w.lens = append(w.lens, len(w.b))
+	w.u32(uint32(len(s)))
+	w.b = append(w.b, s...)
+}
+func (w *vfW) count(n int) {
+	w.lens = append(w.lens, len(w.b))
+	w.u32(uint32(n))
+}
 func (w *vfW) attrs(a *vfAttrs) {
 	if a == nil {
 		w.u32(0)
@@ -147,7 +158,7 @@ func (w *vfW) attrBody(a *vfAttrs) {
 		w.u32(a.Mtime)
 	}
 	if a.Flags&vfAttrExtended != 0 {
-		w.u32(uint32(len(a.Ext)))
+		w.count(len(a.Ext))
 		for _, e := range a.Ext {
 			w.str(e.Name)
 			w.str(e.Data)
@@ -157,7 +168,18 @@ func (w *vfW) attrBody(a *vfAttrs) {
 
 // vfEncodeBody renders type byte + body (no length prefix).
 func vfEncodeBody(p *vfPkt) []byte {
+	b, _ := vfEncodeBodyMap(p)
+	return b
+}
+
+// vfEncodeBodyMap also returns the offsets of all length / count fields.
+func vfEncodeBodyMap(p *vfPkt) ([]byte, []int) {
 	w := &vfW{}
+	vfEncodeInto(w, p)
+	return w.b, w.lens
+}
+
+func vfEncodeInto(w *vfW, p *vfPkt) {
 	w.u8(p.Type)
 	switch p.Type {
 	case vfFxpInit, vfFxpVersion:
@@ -166,7 +188,7 @@ func vfEncodeBody(p *vfPkt) []byte {
 			w.str(e.Name)
 			w.str(e.Data)
 		}
-		return w.b
+		return
 	}
 	w.u32(p.ID)
 	switch p.Type {
@@ -207,7 +229,7 @@ func vfEncodeBody(p *vfPkt) []byte {
 	case vfFxpData:
 		w.str(p.Data)
 	case vfFxpName:
-		w.u32(uint32(len(p.Names)))
+		w.count(len(p.Names))
 		for i := range p.Names {
 			n := &p.Names[i]
 			w.str(n.Name)
@@ -240,7 +262,6 @@ func vfEncodeBody(p *vfPkt) []byte {
 	default:
 		w.b = append(w.b, p.Raw...)
 	}
-	return w.b
 }
 
 // vfEncode renders the full frame: uint32 length + type + body.
